@@ -6,9 +6,10 @@
     [put] indices.  What torch does on values is a record of functions [sem] that stays a visible
     parameter of every theorem.
 
-    [fx] ("clear_fork_on_unforked_set") selects between the code as it is ([fx = false]) and the code
-    with the proposed one-line repair of finding F1 ([fx = true]: an assignment made while
-    [auto_fork_type is None] also forgets [_last_fork]). *)
+    [fx] ("clear_fork_on_unforked_set") selects between the two variants of [__setitem__]:
+    [fx = true] is the code as it is since commit 27ac519 (an assignment made while [auto_fork_type is None]
+    also forgets [_last_fork] — the repair of finding F1), [fx = false] the code before it.  StateNow.v fixes
+    [fx = true]; the harness checks on every run which variant the tree under test contains. *)
 From Coq Require Import List Arith Bool Lia.
 Import ListNotations.
 Set Implicit Arguments.
@@ -351,8 +352,9 @@ Definition Good (st : state) : Prop := Inv (values st) /\ Bounded (values st) /\
     (a) [mask_ok]: the documented precondition of a per-individual revert, in its weakest form: every
         node of the forked sub-graph that is cached on both sides carries the individual axis and has
         shapes "consistent with the subset" (the mix does not raise).
-    (b) [unforked_ok], demanded only when [chk = true] (needed for the code as it is, [fx = false]): no
-        assignment is made with auto-fork switched off while an earlier fork is still pending — finding F1. *)
+    (b) [unforked_ok], demanded only when [chk = true] (needed only for the variant [fx = false], the code before
+        27ac519): no assignment is made with auto-fork switched off while an earlier fork is still pending — finding F1.
+        The code as it is needs (a) only: [StateNow.MaskDisciplined]. *)
 Definition mask_ok (m : M) (st : state) : Prop :=
   match fork st with
   | None => True
